@@ -105,16 +105,18 @@ def overlapping(v, cases, d, thorough):
     PluginRegistryConc.tla exhaustively (all interleavings, 3 callers x 2 calls) + negative control; the eligible TLC cases
     executed by G goroutines on the real registry in a race-detector build; TracePluginRegistryConc.tla decides."""
     out = {"states": 0, "transitions": 0}
-    for cfg in ("PluginRegistryConc_exh_comp.cfg", "PluginRegistryConc_exh_fact.cfg"):
+    for cfg in ("PluginRegistryConc_exh_comp.cfg", "PluginRegistryConc_exh_fact.cfg", "PluginRegistryConc_exh_new.cfg"):
         r = vlib.tlc("PluginRegistryConc", cfg, workers=4, heap="2g", deadlock=False, timeout=600)
         vlib.tlc_must_pass(r, cfg)
         out["states"] += r.distinct
         out["transitions"] += r.generated
     vlib.tlc_must_fail(vlib.tlc("PluginRegistryConc", "PluginRegistryConc_neg_sharedvar.cfg", workers=2, heap="2g", deadlock=False,
                                 timeout=600), "PluginRegistryConc_neg_sharedvar")
+    vlib.tlc_must_fail(vlib.tlc("PluginRegistryConc", "PluginRegistryConc_neg_sharedentry.cfg", workers=2, heap="2g", deadlock=False,
+                                timeout=600), "PluginRegistryConc_neg_sharedentry")
     rb = vlib.harness_build(race=True)
     obs = os.path.join(d, "conc.ndjson")
-    g, rounds = (8, 200) if thorough else (4, 60)
+    g, rounds = (8, 200) if thorough else (4, 40)
     p = vlib.run_driver(rb, ["plugreg", "-mode", "conc", "-in", cases, "-out", obs, "-goroutines", str(g), "-rounds", str(rounds)],
                         timeout=1500, env={"GORACE": "halt_on_error=0 exitcode=0"})
     rows = vlib.read_ndjson(obs)
@@ -157,7 +159,7 @@ def overlapping(v, cases, d, thorough):
             continue
         seen.add(sig)
         v.violation(sig, what, replay_obj=robj, replay_name="conc_%d_%s.json" % (ln, inv))
-    out.update(cases=len(rows) - 1, calls=sum(len(r_["calls"]) for r_ in rows[:-1]), races_reported=len(reports), goroutines=g, rounds=rounds)
+    out.update(new_cases=len([r_ for r_ in rows[:-1] if r_["c"]["form"] == "New"]), cases=len(rows) - 1, calls=sum(len(r_["calls"]) for r_ in rows[:-1]), races_reported=len(reports), goroutines=g, rounds=rounds)
     return out
 
 
@@ -170,8 +172,15 @@ def run(tier, v):
     vlib.tlc_must_pass(r, "PluginRegistry_exh")
     states += r.distinct
     trans += r.generated
-    for neg in NEGS:
-        vlib.tlc_must_fail(vlib.tlc("PluginRegistryMC", neg, workers=4, heap="2g", deadlock=False, timeout=600), neg)
+    import threading
+    vlib.spec_copy()
+    negres = {}
+
+    def run_neg(n):
+        negres[n] = vlib.tlc("PluginRegistryMC", n, workers=2, heap="2g", deadlock=False, timeout=600)
+    negths = [threading.Thread(target=run_neg, args=(n,)) for n in NEGS]     # negative controls run beside the case generation / driver
+    for t in negths:
+        t.start()
     d = vlib.scratch()
     cases = os.path.join(d, "cases.ndjson")
     g = vlib.tlc("PluginRegistryMC", "PluginRegistry_gen%s.cfg" % sfx, workers=1, heap="2g", deadlock=False, timeout=600,
@@ -188,6 +197,12 @@ def run(tier, v):
     if len(rows) != len(gen) or any(r_["c"] != g_ for r_, g_ in zip(rows, gen)):
         raise vlib.MachineryError("driver answered %d of %d cases / cases altered" % (len(rows), len(gen)))
     tr = validate(v, obs, rows)
+    for t in negths:
+        t.join()
+    for neg in NEGS:
+        if neg not in negres:
+            raise vlib.MachineryError("negative control %s did not run" % neg)
+        vlib.tlc_must_fail(negres[neg], neg)
     conc = overlapping(v, cases, d, thorough)
     states += conc["states"]
     trans += conc["transitions"]
@@ -202,7 +217,7 @@ def run(tier, v):
         "rule": "every valid combination of constructor shape x requested form x injected failure/position x calls 1..MaxCalls x nested plugin x "
                 "map shape x mutation (as defined by Valid in PluginRegistry.tla) is one case; distinct = distinct (case class, observable)",
         "real_registry_cases": len(real),
-        "overlapping_calls": {k: conc[k] for k in ("cases", "calls", "races_reported", "goroutines", "rounds")},
+        "overlapping_calls": {k: conc[k] for k in ("cases", "new_cases", "calls", "races_reported", "goroutines", "rounds")},
         "trace_spec_states": tr.distinct,
         "negative_controls": [n[len("PluginRegistry_neg_"):-4] for n in NEGS],
         "invariants_on_observed_runs": INVS,
